@@ -444,6 +444,38 @@ def shadow(p, base_ast):
     return None
 
 
+def bounds(p, base_ast):
+    """(lower, upper) meaning of the program's result where the property and MontePy's documentation fix it:
+    & | ~ exactly; a &= b is inside a and contains a & b; a |= b contains a and is inside a | b (proved of the
+    model as C02_aug_ops_bounds); None below the setters, whose result is whatever the caller assembles"""
+    k = p[0]
+    if k in ("p", "n", "c", "b", "AA", "OO", "GL", "GR"):
+        e = shadow(p, base_ast)
+        return None if e is None else (e, e)
+    if k == "W":
+        return bounds(p[1], base_ast)
+    if k == "N":
+        a = bounds(p[1], base_ast)
+        return None if a is None else (("not", a[1]), ("not", a[0]))
+    if k in ("A", "O", "IA", "IO"):
+        a = bounds(p[1], base_ast)
+        b = bounds(p[2], base_ast)
+        if a is None or b is None:
+            return None
+        if k == "A":
+            return (("and", a[0], b[0]), ("and", a[1], b[1]))
+        if k == "O":
+            return (("or", a[0], b[0]), ("or", a[1], b[1]))
+        if k == "IA":
+            return (("and", a[0], b[0]), a[1])
+        return (a[0], ("or", a[1], b[1]))
+    return None
+
+
+def implies(a, b):
+    return geom_equal(("or", ("not", a), b), ("or", ("leaf", 1, 1), ("leaf", -1, 1)))
+
+
 # ---------------------------------------------------------------------------- base text generator
 def gen_geom_items(rng, depth, cells=True):
     """-> list of token texts, grammar expr/term/factor with redundant parentheses"""
@@ -515,6 +547,21 @@ def render_geom(rng, items, glue=0.0, breaks=0.05, comments=0.3, multi=0.2, widt
     return lines
 
 
+def wrap_items(items, width=72):
+    """'7 0 item item ...' on as many lines as needed (continuation lines start with five blanks): MCNP and the
+    oracle ignore what is beyond column 80"""
+    lines = []
+    cur = "7 0"
+    for t in items:
+        if len(cur) + 1 + len(t) > width:
+            lines.append(cur)
+            cur = "     " + t
+        else:
+            cur += " " + t
+    lines.append(cur)
+    return lines
+
+
 def plain_lines(canon_toks):
     txt = []
     for t in canon_toks:
@@ -524,7 +571,7 @@ def plain_lines(canon_toks):
             txt.append("#" + t[1:])
         else:
             txt.append(t)
-    return ["7 0 " + " ".join(txt)]
+    return wrap_items(txt)
 
 
 # ---------------------------------------------------------------------------- one case
@@ -605,6 +652,10 @@ def judge(case, ob):
         sh = shadow(case["prog"], ob["obj0"])
         if sh is not None and not geom_equal(sh, ob["obj"]):
             return {"kind": "operator-meaning", "expected": show_ast(sh), "object": show_ast(ob["obj"])}
+        bd = bounds(case["prog"], ob["obj0"]) if sh is None else None
+        if bd is not None and not (implies(bd[0], ob["obj"]) and implies(ob["obj"], bd[1])):
+            return {"kind": "operator-meaning", "at_least": show_ast(bd[0]), "at_most": show_ast(bd[1]),
+                    "object": show_ast(ob["obj"])}
     if ob["written_ast"] is None:
         return {"kind": "written-unparsable", "written": ob["written_lines"], "error": ob.get("written_error"),
                 "object": show_ast(ob["obj"])}
@@ -723,16 +774,16 @@ def make_case(rng, stream, boost=0):
         if rng.random() < 0.25:            # repeat: "3 2r" = 3 3 3
             k = rng.randint(1, 2)
             pre = gen_geom_items(rng, 1, cells=False) if rng.random() < 0.5 else []
-            lines = ["7 0 " + " ".join(pre + [str(a), "%dr" % k])]
-            read = ["7 0 " + " ".join(pre + [str(a)] * (k + 1))]
+            lines = wrap_items(pre + [str(a), "%dr" % k])
+            read = wrap_items(pre + [str(a)] * (k + 1))
             return {"stream": stream, "base_lines": lines, "base_read_lines": read, "prog": None}
         pre = gen_geom_items(rng, 1, cells=False) if rng.random() < 0.5 else []
         mid = [str(a), "%di" % k, str(b)]
         exp = [str(x) for x in range(a, b + 1)]
         tail = ([":"] + gen_geom_items(rng, 0, cells=False)) if rng.random() < 0.5 else []
         wrap = rng.random() < 0.5
-        lines = ["7 0 " + " ".join(pre + (["("] if wrap else []) + mid + ([")"] if wrap else []) + tail)]
-        read = ["7 0 " + " ".join(pre + (["("] if wrap else []) + exp + ([")"] if wrap else []) + tail)]
+        lines = wrap_items(pre + (["("] if wrap else []) + mid + ([")"] if wrap else []) + tail)
+        read = wrap_items(pre + (["("] if wrap else []) + exp + ([")"] if wrap else []) + tail)
         return {"stream": stream, "base_lines": lines, "base_read_lines": read, "prog": None}
     raise ValueError(stream)
 
@@ -770,6 +821,53 @@ def full_check(case):
     return None
 
 
+GEOM_LHS = ("union", "geometry_expr", "geometry_term", "geometry_factor", "geometry_factory", "padding")
+_PROD = re.compile(r'\(\s*\(?"([^"]+)",\s*\[([^\]]*)\]\)')
+
+
+def _prods(text):
+    out = set()
+    for m in _PROD.finditer(text):
+        if m.group(1) in GEOM_LHS:
+            out.add((m.group(1), tuple(re.findall(r'"([^"]*)"', m.group(2)))))
+    return out
+
+
+def grammar_diff():
+    """geometry / padding productions of the generated CellParser table vs those the model gives an action to
+    (read from the two .v files: this only explains a broken C02_grammar_skeleton, the obligation is Coq's)"""
+    with open(os.path.join(vlib.COQ, "Gen", "Grammar.v")) as fh:
+        g = fh.read()
+    i = g.index("Definition cell_productions")
+    g = g[i:g.index("].", i)]
+    with open(os.path.join(vlib.COQ, "Model", "Geom.v")) as fh:
+        m = fh.read()
+    i = m.index("Definition geom_rules")
+    j = m.index("Definition padding_prods")
+    model = _prods(m[i:m.index("]%string.", i)]) | _prods(m[j:m.index("]%string.", j)])
+    src = _prods(g)
+    return sorted(src - model), sorted(model - src)
+
+
+_SAMPLE = {"NUMBER": ["3"], "COMPLEMENT": ["#"], "(": ["("], ")": [")"], ":": [":"], "padding": [" "], "union": [" : "],
+           "geometry_factory": ["2", "(1:-2)"], "geometry_factor": ["2", "#(1 2)", "#4"], "geometry_term": ["1 -2", "2"],
+           "geometry_expr": ["1:2", "1 -2:3"], "SPACE": [" "]}
+
+
+def witness_cases(added):
+    """cell cards that use a production the model does not know (search stream 3 of DESIGN 4.4)"""
+    out = []
+    for lhs, rhs in added:
+        if lhs == "padding" or any(x not in _SAMPLE for x in rhs):
+            continue
+        for pick in (0, 1):
+            txt = "".join(_SAMPLE[x][min(pick, len(_SAMPLE[x]) - 1)] for x in rhs)
+            for frame in ("7 0 4 %s 5", "7 0 4 : %s 5", "7 0 -6 %s : 5", "7 0 (%s) 5"):
+                out.append({"stream": "grammar-witness", "base_lines": [frame % txt], "prog": None,
+                            "production": [lhs, list(rhs)]})
+    return out
+
+
 def load_json_cases(d):
     out = []
     if os.path.isdir(d):
@@ -803,7 +901,26 @@ def run(ctx):
              "layout-setters": 500 if quick else 10000, "alias": 300 if quick else 6000,
              "shortcut": 40 if quick else 800, "shortcut-edited": 60 if quick else 1200}
     depth_boost = 0 if quick else 2
-    ctx.prove()
+    # Gen/Grammar.v from the SLY grammars of the tree under test: C02_grammar_skeleton / C02_padding_skeleton and
+    # C02_grammar_sound are stated over its cell_productions
+    try:
+        import translate_grammar
+        translate_grammar.regenerate()
+    except Exception as e:
+        ctx.broken_obligations.append({"obligation": "translate_grammar.regenerate() (Gen/Grammar.v from CellParser)",
+                                       "detail": str(e)[-1500:]})
+    proved = ctx.prove()
+    extra_cases = []
+    if not proved:
+        try:
+            added, removed = grammar_diff()
+            if added or removed:
+                ctx.broken_obligations.append({"obligation": "C02_grammar_skeleton / C02_padding_skeleton: CellParser's geometry "
+                                               "productions differ from the productions the model gives an action to",
+                                               "detail": {"in_source_not_in_model": added, "in_model_not_in_source": removed}})
+                extra_cases = witness_cases(added)
+        except Exception as e:
+            ctx.broken_obligations.append({"obligation": "grammar_diff", "detail": str(e)[-500:]})
     ok, log = vlib.coq_make(["Model/Geom.vo"])
     if not ok:
         ctx.broken_obligations.append({"obligation": "Model/Geom.vo builds", "detail": log[-800:]})
@@ -816,6 +933,7 @@ def run(ctx):
         c["corpus"] = f
         cases.append(c)
     n_corpus = len(cases)
+    cases += extra_cases
     for stream, n in sizes.items():
         for i in range(n):
             cases.append(make_case(random.Random(f"{ctx.seed}:C02:{stream}:{i}"), stream, depth_boost))
